@@ -90,7 +90,7 @@ type c19Case struct {
 	Only    int    `json:"only,omitempty"`  // replay: a single modification index (+1), 0 = all
 }
 
-var c19Lengths = []int{0, 1, 15, 16, 17, 31, 32, 33, 64, 255, 1024}
+var c19Lengths = []int{0, 1, 15, 16, 17, 31, 32, 33, 64, 255, 1024, 4096, 16384, 16385, 65537}
 var c19Patterns = []string{"zero", "ff", "counter", "key"}
 
 func c19Add(m *meta.Meta, key string, pt []byte, asStr bool, k []byte) error {
@@ -139,6 +139,9 @@ func C19() *engine.Check {
 						continue
 					}
 					for _, s := range []bool{false, true} {
+						if l > 1024 && part == "ciphertext-mods" && (p != "counter" || s) {
+							continue // one large plaintext per length is enough for the modification table
+						}
 						if !emit(&c19Case{Len: l, Pattern: p, AsStr: s, Part: part}) {
 							return
 						}
@@ -312,7 +315,7 @@ func C19() *engine.Check {
 		if t == "thorough" {
 			return c19Lengths
 		}
-		return []int{0, 1, 16, 33, 64}
+		return []int{0, 1, 16, 33, 64, 16385}
 	}
 	return &engine.Check{
 		Property: "C19",
@@ -429,6 +432,41 @@ func c19SeqSub() *engine.Sub {
 					return
 				}
 				kept[k] = got
+			}
+			// the key is given as a byte slice: what counts is its content at the time of the call,
+			// not the identity of the buffer (a caller may rotate or wipe a key buffer in place)
+			if cs.FailAt == 0 {
+				buf := append([]byte{}, c19Key...)
+				k2 := reverse(c19Key)
+				pt := c19Plain(cs.Len, "ff")
+				mb := meta.NewMeta()
+				if err := c19Add(mb, "v1", pt, cs.AsStr, buf); err != nil {
+					ctx.Failf(cs, "add-fails", "AddEncrypted fails: %v", err)
+					return
+				}
+				copy(buf, k2) // rotate in place
+				if err := c19Add(mb, "v2", pt, cs.AsStr, buf); err != nil {
+					ctx.Failf(cs, "add-fails", "AddEncrypted after rotating the key buffer fails: %v", err)
+					return
+				}
+				if got, err := c19Get(mb, "v2", cs.AsStr, k2); err != nil || !bytes.Equal(got, pt) {
+					ctx.Failf(cs, "key-buffer-identity/value-not-readable-with-current-key", "a value added after the key buffer was overwritten with k2 cannot be read with k2: %v", err)
+				}
+				if _, err := c19Get(mb, "v2", cs.AsStr, c19Key); err == nil {
+					ctx.Failf(cs, "key-buffer-identity/readable-with-previous-key", "a value added after the key buffer was overwritten with k2 reads with the previous key k1")
+				}
+				if _, err := c19Get(mb, "v1", cs.AsStr, buf); err == nil {
+					ctx.Failf(cs, "key-buffer-identity/old-value-readable-with-rotated-buffer", "a value encrypted under k1 reads with the same buffer now holding k2")
+				}
+				for i := range buf {
+					buf[i] = 0 // wipe
+				}
+				if err := c19Add(mb, "v3", pt, cs.AsStr, buf); err == nil {
+					ctx.Failf(cs, "key-buffer-identity/wiped-key-accepted", "AddEncrypted accepts a key buffer that was wiped to all zeros after an earlier successful call")
+				}
+				if _, err := c19Get(mb, "v2", cs.AsStr, buf); err == nil {
+					ctx.Failf(cs, "key-buffer-identity/wiped-key-accepted", "GetEncrypted accepts a key buffer that was wiped to all zeros")
+				}
 			}
 			for _, k := range keys {
 				if !bytes.Equal(kept[k], pts[k]) {
